@@ -13,6 +13,12 @@ TRUSTED = [
     "digits, only U+212A lower-cases into ASCII) are audited over all 1 114 112 code points on every run",
     "AST audit: every Call/Subscript/BinOp/Compare/Raise/Assert node of the 49 functions reachable from parser.parse is compared "
     "with the committed table harness/props/c14_sites.json; a new or changed node escalates to the thorough budget and is named",
+    "shared-state audit: every class-level / module-level assignment, global, store through cls / type(self) / a module-level name "
+    "/ self of the shared DEFAULTPARSER, setattr, caching decorator and mutable default in ALL functions of _parser.py is compared "
+    "with harness/props/c14_shared_state_sites.json; a new one escalates the statefulness streams and is named",
+    "process-zone family: the reference for a call under zone Z is the model's answer for Z AND the implementation's answer in a "
+    "fresh Python process whose only zone is Z (harness/props/_parser_ref.py); a tzlocal result is compared by fold, utcoffset, "
+    "dst, tzname at its wall time and by equality with a tzlocal() built at that moment",
 ]
 ASSUMPTIONS = [
     "decimal context is the default one (prec 28, ROUND_HALF_EVEN, InvalidOperation trapped); sys.int_max_str_digits = 4300",
@@ -22,7 +28,7 @@ ASSUMPTIONS = [
     "tzstr's ValueError; exceptions of a user callable are the user's) — outside the property's domain, modelled anyway",
     "undecodable bytes (UnicodeDecodeError) are not text; MemoryError/RecursionError are not modelled",
 ]
-RULE = ("aliasing family (texts whose scan writes into the token list: HH:MM NAME+-N / NAME+-HHMM / +-HHMM (NAME), with and without spaces, in fuzzy sentences, random upper-case names <= 5 letters): each parsed 3x in a row as the same str object, as an equal-but-distinct object, after 3 and after 700 unrelated calls, every answer compared with the first and with the model; same text twice in a row over a slice of every family; malformed stream: random concatenations of date-like words, digit runs of length 1..40 (and 27..31 / 4300-digit runs), "
+RULE = ("process-zone switch family (6 groups of TZ settings sharing time.tzname entries but differing in offset / DST rules / hemisphere / having DST: EST+5EDT vs EST-10EDT vs EST5, AAA0BBB pairs, GMT0BST vs GMT-6BST vs Europe/London, UTC vs UTC+3, IST, CET; texts naming those abbreviations at ordinary, gap and ambiguous wall times, with and without explicit offsets; a -> b -> a switches with time.tzset() on one text, then a shuffled tail; every answer against the model for that zone and a fresh process); aliasing family (texts whose scan writes into the token list: HH:MM NAME+-N / NAME+-HHMM / +-HHMM (NAME), with and without spaces, in fuzzy sentences, random upper-case names <= 5 letters): each parsed 3x in a row as the same str object, as an equal-but-distinct object, after 3 and after 700 unrelated calls, every answer compared with the first and with the model; same text twice in a row over a slice of every family; malformed stream: random concatenations of date-like words, digit runs of length 1..40 (and 27..31 / 4300-digit runs), "
         "separators, signs, Unicode decimal digits / non-decimal digits / letters / spaces / others, NUL, inf/nan words; 1-3 "
         "character edits of valid renderings of 44 templates; valid renderings inside garbage; x dayfirst/yearfirst in "
         "{None,True,False} x fuzzy x fuzzy_with_tokens x ignoretz x 12 tzinfos forms x 10 defaults x {DEFAULTPARSER, 3 stock "
@@ -159,6 +165,23 @@ def correspondence(ctx):
         ctx.escalated = True
         ctx.note("mutation audit: new/changed write or class-level mutable state in the anchored code -> thorough budget: %s" % mnew[:10])
         ctx.count("mutation_sites_new_or_changed", len(mnew))
+    # --- state shared between calls: class-level / module-level names, stores through cls / a module-level name / the shared
+    #     DEFAULTPARSER instance, caching decorators, mutable defaults — in every function of the file
+    ssites = L.ast_shared_state_sites(os.environ.get("DATEUTIL_REPO", "/repo"))
+    try:
+        scommitted = json.load(open(os.path.join(os.path.dirname(SITES_FILE), "c14_shared_state_sites.json")))
+    except Exception:
+        scommitted = {}
+    snew = sorted(k for k in ssites if ssites[k] != scommitted.get(k))
+    ctx.count("shared_state_sites_total", sum(ssites.values()))
+    ctx.hist["shared_state_sites"] = "; ".join(sorted(k for k in ssites if ":class-store:" in k or ":module-store:" in k
+                                                      or ":shared-instance-store:" in k or ":global:" in k
+                                                      or ":caching-decorator:" in k)) or "none"
+    if snew:
+        ctx.escalated = True
+        ctx.note("shared-state audit: new class-level / module-level state or a store into it in the anchored file -> thorough "
+                 "budget for the statefulness streams (aliasing, same-text-twice, process-zone switches): %s" % snew[:10])
+        ctx.count("shared_state_sites_new_or_changed", len(snew))
     # --- lexer alone
     rng = ctx.subrng("lex")
     from dateutil.parser import _parser
@@ -325,6 +348,10 @@ def oracle(ctx):
                 if a != a0:
                     ctx.violation("parse() is not a function of its arguments: parse after many unrelated calls differs",
                                   c.describe(), {"first": a0, "later": a, "model": m})
+        # ---- the process-zone switch family: zones that share an abbreviation, time.tzset() between calls and back; every
+        #      answer against the model for that zone and against a fresh process whose only zone that was
+        L.zone_switch_run(ctx, ctx.subrng("zone-switch"), G.ZONE_GROUPS, ctx.budget(60, 500), "parse() is not a function of its "
+                          "arguments and the process time zone")
         L.set_tz("UTC")
         # non-text input
         for x in NON_TEXT:
@@ -373,6 +400,8 @@ def replay(ctx, payload):
     if c.get("text") is None:
         print("non-text case: see harness/props/c14.py NON_TEXT")
         return False
+    if c.get("TZ_sequence") is not None:
+        return L.zone_switch_replay(ctx, c)
     call = L.call_from_case(c)
     prev = L.set_tz(c.get("TZ") or "UTC")
     try:
